@@ -189,6 +189,8 @@ pub fn model_line_key(scn_patterns: &BTreeMap<u16, MatcherKind>, line: &Line) ->
             Some(MatcherKind::FuncDebug) | Some(MatcherKind::FuncUserPanic) | Some(MatcherKind::Macro(_)) => {
                 LineKey::DebugPattern(*pat_id)
             }
+            // named by its source text `eq!(..)` only: identifiable up to its method
+            Some(MatcherKind::MacroEq(_)) => LineKey::Method(FACTS[*method as usize].path.to_string()),
             _ => LineKey::IndexPattern(FACTS[*method as usize].path.to_string(), *index),
         },
         Line::NeverCalled { method } => LineKey::Method(FACTS[*method as usize].path.to_string()),
